@@ -623,6 +623,8 @@ func (s *Sym) evCall(env *Env, x ECall) TV {
 	case "mathmod":
 		a := argv()
 		return TV{T: fmt.Sprintf("(mod %s %s)", a[0].T, a[1].T), S: "Int"}
+	case "allocTop": // allocation watermark of the current state (all allocated references are <= it)
+		return TV{T: s.top(env.st), S: "Int"}
 	case "isfresh": // reference allocated after the old state
 		a := argv()
 		if env.old == nil {
